@@ -1735,6 +1735,8 @@ class _rrulestr(object):
                     rset.rdate(dtstart)
                 return rset
             else:
+                if not rrulevals:
+                    raise ValueError("no RRULE line found")
                 return self._parse_rfc_rrule(rrulevals[0],
                                              dtstart=dtstart,
                                              cache=cache,
